@@ -34,6 +34,7 @@ Definition ldata_eqb (a b : ldata) : bool :=
   | DNone, DNone => true
   | DTag x, DTag y => x =? y
   | DCt x, DCt y => ct_eqb x y
+  | DRef, DRef => true
   | _, _ => false
   end.
 
@@ -91,9 +92,10 @@ Definition within (c : ct) (h w : N) : bool :=
   (c_minh c <=? h) && (h <=? c_maxh c) && (c_minw c <=? w) && (w <=? c_maxw c).
 
 (* kinds whose size the property claims to lie within the constraint:
-   text 1, str 2, flex 3, container 4, fill 10, unit 11, image 12, glyph 13, probe 14 *)
+   text 1, str 2, flex 3, container 4, fill 10, unit 11, image 12, glyph 13, probe 14, surface 15, image_ascii 16 *)
 Definition claimed (k : N) : bool :=
-  (k =? 1) || (k =? 2) || (k =? 3) || (k =? 4) || (k =? 10) || (k =? 11) || (k =? 12) || (k =? 13) || (k =? 14).
+  (k =? 1) || (k =? 2) || (k =? 3) || (k =? 4) || (k =? 10) || (k =? 11) || (k =? 12) || (k =? 13) || (k =? 14)
+  || (k =? 15) || (k =? 16).
 
 Fixpoint vkind (c : ct) (v : vtree) : N :=
   match v with
@@ -101,6 +103,7 @@ Fixpoint vkind (c : ct) (v : vtree) : N :=
   | VFrame _ _ => 5 | VScrollBar _ _ _ _ _ => 6 | VTag _ _ => 7 | VNone => 8
   | VDynamic b => vkind c (b c)
   | VFill _ => 10 | VUnit => 11 | VImage _ _ _ => 12 | VGlyph _ _ _ _ => 13 | VProbe _ _ _ => 14
+  | VSurface _ _ _ => 15 | VImageAscii _ _ _ => 16 | VRef _ => 17
   end.
 
 (* rectangles in the coordinates of the surface handed to the root *)
@@ -140,6 +143,11 @@ Fixpoint expect (glyphs : bool) (v : vtree) (t : ltree) (cur : rect) (path : lis
   | VDynamic build =>
       match l_data t, l_kids t with
       | DCt c, k :: _ => expect glyphs (build c) k (rect_apply cur t) (path ++ [0%nat])
+      | _, _ => []
+      end
+  | VRef (Some v') =>
+      match l_data t, l_kids t with
+      | DRef, k :: _ => expect glyphs v' k (rect_apply cur t) (path ++ [0%nat])
       | _, _ => []
       end
   | _ => []
